@@ -32,6 +32,7 @@ MUTANTS = [
     {"name": "failed-mark-after-choice", "edits": [
         {"file": "src/broker/update.rs", "old": "        self.store\n            .failed_proxies\n            .insert(failed_proxy_address.clone());\n\n        let proxy_resource = self.generate_new_free_proxy(failed_proxy_address.clone())?;\n", "new": "        let proxy_resource = self.generate_new_free_proxy(failed_proxy_address.clone())?;\n        self.store\n            .failed_proxies\n            .insert(failed_proxy_address.clone());\n"}],
      "expect": "C06.D3:failed-mark-before-replacement-choice"},
+    {"name": "external-storage-drops-store-on-error", "file": "src/broker/external.rs", "old": "        let res = store.replace_failed_proxy(failed_proxy_address, migration_limit);\n        // It may change the store even on error.\n        self.update_external_store_and_cache(ExternalStore { store, version })\n            .await?;\n        res", "new": "        let res = store.replace_failed_proxy(failed_proxy_address, migration_limit)?;\n        self.update_external_store_and_cache(ExternalStore { store, version })\n            .await?;\n        Ok(res)", "expect": "C06.D6"},
 ]
 
 UPD = "broker::update::MetaStoreUpdate"
@@ -90,6 +91,8 @@ def run(ctx):
     _replace(ctx)
     _never_allocate_failed(ctx)
     _balance(ctx)
+    ctx.rule("C06.D6", "the promotion performed by replace_failed_proxy is kept when no replacement is available: every storage back-end persists the store whatever replace_failed_proxy returns")
+    _persist_on_error(ctx)
 
 
 def _pa_eq_oracle(du, failed_idx, it_holder):
@@ -531,3 +534,39 @@ def _balance(ctx):
     for gb, t in gcalls:
         sl = du.slice_operand(t["args"][1]) if len(t["args"]) > 1 else None
         ctx.check(sl is not None and sl.has_field("ChunkStore", "proxy_addresses"), "C06.D5", "guard-subject", site(b, gb), ok="guard applied to chunk.proxy_addresses", bad="guard is not applied to the chunk's proxy addresses")
+
+
+def _persist_on_error(ctx):
+    """MetaStore::replace_failed_proxy promotes the partner's replicas and records the failed proxy *before* it can fail
+    with NoAvailableResource.  A storage back-end that works on a fetched copy must write the copy back on both results,
+    otherwise the promotion is lost exactly when there is no spare proxy."""
+    from ..lib import branch_conditions
+    F = ctx.F
+    n = 0
+    for b in F.all_bodies(bins=False):
+        if b.is_mock() or "tests::" in b.path or b.kind == "Promoted" or not b.path.startswith(("broker::external", "<broker::external")):
+            continue
+        calls = [(bb, t) for bb, t in b.calls() if (callee_of(t) or "").endswith("MetaStore::replace_failed_proxy")]
+        if not calls:
+            continue
+        n += 1
+        ctx.analysed(b)
+        du = DefUse(b)
+        dom = cfg.dominators(b)
+        persists = [(bb, t) for bb, t in b.calls() if (callee_of(t) or "").endswith("update_external_store_and_cache") or (callee_of(t) or "").endswith("update_external_store")]
+        if not persists:
+            ctx.violation("C06.D6", "external:persist-missing", site(b, calls[0][0]), "the external storage never writes the store back after replace_failed_proxy")
+            continue
+        cb = calls[0][0]
+        bad = None
+        for pb, pt in persists:
+            if cb not in dom.get(pb, ()):
+                continue
+            for d, discr, val in branch_conditions(b, pb, dom):
+                if cb in dom.get(d, ()) and du.slice_operand(discr).has_call("MetaStore::replace_failed_proxy"):
+                    bad = (pb, d, val)
+        after = [pb for pb, _ in persists if cb in dom.get(pb, ())]
+        ctx.check(bool(after) and bad is None, "C06.D6", "external:persist-on-both-results", site(b, cb), ok="the store is written back whatever replace_failed_proxy returned",
+                  bad="the write-back of the store is %s: when no spare proxy exists the promotion of the partner's replicas is dropped with the fetched copy" % ("taken only on one branch of replace_failed_proxy's result (switch bb%s)" % bad[1] if bad else "not reached after replace_failed_proxy"))
+    ctx.floor("C06.D6", "copy-based storage back-ends calling replace_failed_proxy", n, 1)
+    # and the store-level function does mark / promote before it may fail: confirmed by the Err-exit analysis of C04 (err-after-write holds only because the epoch is bumped first)
